@@ -113,7 +113,7 @@ func classify(r any, stack string) (kind, site string) {
 	// innermost frame that is generated code or iohelp
 	for _, m := range frameRe.FindAllStringSubmatch(stack, -1) {
 		fn := m[1]
-		if strings.HasPrefix(fn, "runtime.") || strings.HasPrefix(fn, "panic") || strings.Contains(fn, "verif/driver") {
+		if strings.HasPrefix(fn, "runtime.") || strings.HasPrefix(fn, "runtime/") || strings.HasPrefix(fn, "panic") || strings.Contains(fn, "verif/") {
 			continue
 		}
 		// strip package path and receiver type names: keep only the method name
@@ -134,15 +134,31 @@ func classify(r any, stack string) (kind, site string) {
 func Guard(f func() error) (o Outcome) {
 	a0 := allocated()
 	defer func() {
-		if r := recover(); r != nil {
+		r := recover()
+		o.Alloc = allocated() - a0
+		if r != nil {
 			o.Panicked = true
 			o.PanicMsg = fmt.Sprint(r)
 			o.PanicKind, o.Site = classify(r, string(debug.Stack()))
 		}
-		o.Alloc = allocated() - a0
 	}()
 	o.Err = f()
 	return
+}
+
+// PreciseAlloc re-runs f bracketed by runtime.ReadMemStats (exact TotalAlloc, expensive). The cheap
+// counter used by Guard is only flushed per span, so it serves as a filter: a verdict about
+// allocation is always taken from this function.
+func PreciseAlloc(f func()) uint64 {
+	var m0, m1 runtime.MemStats
+	runtime.GC()
+	runtime.ReadMemStats(&m0)
+	func() {
+		defer func() { recover() }()
+		f()
+	}()
+	runtime.ReadMemStats(&m1)
+	return m1.TotalAlloc - m0.TotalAlloc
 }
 
 // MustUnmarshal calls MustUnmarshalBebop when the type has it.
@@ -162,22 +178,33 @@ func HasMust(rec bebop.Record) bool {
 // ---- harness-owned readers and writers -----------------------------------------------------
 
 // ChunkReader serves data according to a schedule of choices; it is the environment of DecodeBebop.
-// Each Read(p) is a choice point: 0 = everything available up to len(p); 1 = one byte; 2 = half
-// (rounded up); 3 = (0, nil) "no progress" (at most twice in a row); 4 = remaining bytes together
-// with io.EOF when they fit.
+// Each Read(p) with data available is a choice point. Options (only those that differ from the
+// default are offered): OptFull = everything available up to len(p) (default); OptOne = one byte;
+// OptHalf = half (rounded up); OptZero = (0, nil) "no progress" (at most twice in a row);
+// OptWithEOF = the final bytes together with the final error.
 type ChunkReader struct {
 	Data      []byte
 	Pos       int
-	Choose    func(avail, want int) int
+	Choose    func(opts []int) int // returns an index into opts; nil = always default
 	zeros     int
 	Calls     int
 	EOFReads  int
 	FinalErr  error // error returned at end of data (default io.EOF)
-	FailAt    int   // if >=0: byte offset at which Err is returned instead of data
+	FailAt    int   // if >=0: byte offset at which FailErr is returned instead of data
 	FailErr   error
-	FailStyle int // 0: (0,err) once offset reached; 1: deliver bytes up to offset together with err
+	FailStyle int // 0: (0,err) once the offset is reached; 1: deliver the bytes before the offset together with err
+	Faulted   bool // the failure was actually delivered
 	Budget    int
+	MaxPos    int
 }
+
+const (
+	OptFull = iota
+	OptOne
+	OptHalf
+	OptZero
+	OptWithEOF
+)
 
 func NewChunkReader(data []byte) *ChunkReader {
 	return &ChunkReader{Data: data, FailAt: -1, FinalErr: io.EOF, Budget: 1000 + 10*len(data)}
@@ -189,7 +216,8 @@ func (c *ChunkReader) Read(p []byte) (int, error) {
 		return 0, nil
 	}
 	limit := len(c.Data)
-	if c.FailAt >= 0 && c.FailAt < limit {
+	failing := c.FailAt >= 0 && c.FailAt <= limit
+	if failing {
 		limit = c.FailAt
 	}
 	avail := limit - c.Pos
@@ -198,7 +226,8 @@ func (c *ChunkReader) Read(p []byte) (int, error) {
 		if c.EOFReads > c.Budget {
 			panic(Runaway{c.EOFReads})
 		}
-		if c.FailAt >= 0 && c.FailAt <= len(c.Data) && c.Pos >= c.FailAt {
+		if failing {
+			c.Faulted = true
 			return 0, c.FailErr
 		}
 		return 0, c.FinalErr
@@ -207,30 +236,43 @@ func (c *ChunkReader) Read(p []byte) (int, error) {
 	if n > len(p) {
 		n = len(p)
 	}
-	ch := 0
+	opts := []int{OptFull}
+	if n > 1 {
+		opts = append(opts, OptOne)
+	}
+	if n > 2 {
+		opts = append(opts, OptHalf)
+	}
+	if c.zeros < 2 {
+		opts = append(opts, OptZero)
+	}
+	if avail <= len(p) && !failing {
+		opts = append(opts, OptWithEOF)
+	}
+	ch := OptFull
 	if c.Choose != nil {
-		ch = c.Choose(avail, len(p))
+		ch = opts[c.Choose(opts)]
 	}
 	withErr := false
 	switch ch {
-	case 1:
+	case OptOne:
 		n = 1
-	case 2:
+	case OptHalf:
 		n = (n + 1) / 2
-	case 3:
-		if c.zeros < 2 {
-			c.zeros++
-			return 0, nil
-		}
-	case 4:
-		if avail <= len(p) {
-			withErr = true
-		}
+	case OptZero:
+		c.zeros++
+		return 0, nil
+	case OptWithEOF:
+		withErr = true
 	}
 	c.zeros = 0
 	copy(p, c.Data[c.Pos:c.Pos+n])
 	c.Pos += n
-	if c.FailAt >= 0 && c.FailStyle == 1 && c.Pos >= limit && c.FailAt < len(c.Data)+1 {
+	if c.Pos > c.MaxPos {
+		c.MaxPos = c.Pos
+	}
+	if failing && c.FailStyle == 1 && c.Pos >= limit {
+		c.Faulted = true
 		return n, c.FailErr
 	}
 	if withErr && c.Pos >= len(c.Data) {
